@@ -751,6 +751,10 @@ def run_incremental(prog, leaves, tags, h):
     handler = {"none": None, "null": Null(), "swap": SwapI()}[h]
     T = {"N": NoChange, "U": UnknownChange}
     tg = pack_inputs(prog, [T[t] for t in tags]) if len(tags) == len(prog["ik"]) else tuple(T[t] for t in tags)
+    if (len(tags) + tags.count("U")) % 2:
+        # the tags as any pytree operation hands them on (tree_map / flatten+unflatten / a jit, vmap or scan boundary):
+        # equal to the module-level NoChange / UnknownChange, but fresh instances, not the same objects
+        tg = jtu.tree_map(lambda x: x, tg)
     try:
         out = incremental(f)(handler, pack_inputs(prog, leaves), tg)
     except Inexact:
